@@ -24,7 +24,7 @@ IGN_DIRS = [".git", "venv", "env", ".venv", ".env", "build", "dist", "__pycache_
             ".idea", ".vscode", ".local", "bower_components"]
 PATTERNS = ["build/**", "**/sub/*", "tests/test_*.py", "*.py", "pkg/**/conftest.py", "[", "src/*", "**/b_test.py", "tests/**",
             "*/conftest.py", "conftest.py", "**/*_test.py", "a.b/**"]
-ROOTS = [["proj"], ["build", "proj"], ["env", "x", "proj"], ["venv"], ["my-site-packages-mirror", "proj"], ["site-packages", "proj"],
+ROOTS = [["proj"], ["@link", "build", "proj"], ["@link", "proj"], ["build", "proj"], ["env", "x", "proj"], ["venv"], ["my-site-packages-mirror", "proj"], ["site-packages", "proj"],
          ["dist", "a.egg-info", "proj"], ["work", ".cache", "proj"], ["target"], ["pkg.egg-info"]]
 
 
@@ -104,6 +104,9 @@ CORPUS = [
      "tag": "corpus:root_under_build"},
     {"tree": [("f", "conftest.py", "ok"), ("d", "my_venv", [("f", "test_v.py", "ok")]), ("d", "venv", [("f", "test_w.py", "ok")])], "patterns": [],
      "roots": [["proj"], ["my-site-packages-mirror", "proj"]], "tag": "corpus:site_packages_ancestor"},
+    # seed S25: the workspace reached through a symlinked ancestor, below a directory with an ignored name, with exclude patterns
+    {"tree": [("f", "conftest.py", "ok"), ("d", "tests", [("f", "test_a.py", "ok")]), ("d", "generated", [("f", "test_gen.py", "ok")])],
+     "patterns": ["generated/*"], "roots": [["proj"], ["@link", "build", "proj"], ["@link", "proj"]], "tag": "corpus:symlinked_root"},
 ]
 
 
@@ -122,8 +125,17 @@ def run(r):
             for k, sp in enumerate(specs):
                 rels = [p for p, _ in files_of(sp["tree"])]
                 for j, rc in enumerate(sp["roots"]):
-                    root = os.path.join(base, "%s_%d_%d" % (name, k, j), *rc)
-                    write_tree(root, sp["tree"])
+                    if rc[0] == "@link":
+                        # the workspace is reached through a symlinked ancestor: the scan is given the
+                        # path through the link, the walk yields paths below it
+                        top = os.path.join(base, "%s_%d_%d" % (name, k, j))
+                        real = os.path.join(top, "real", *rc[1:])
+                        write_tree(real, sp["tree"])
+                        os.symlink(os.path.join(top, "real"), os.path.join(top, "link"))
+                        root = os.path.join(top, "link", *rc[1:])
+                    else:
+                        root = os.path.join(base, "%s_%d_%d" % (name, k, j), *rc)
+                        write_tree(root, sp["tree"])
                     cid = len(h1_cases)
                     h1_cases.append({"id": cid, "ops": [
                         {"op": "glob_matches", "patterns": sp["patterns"], "paths": rels},
@@ -140,6 +152,9 @@ def run(r):
                 matches, _, dump, keys = o["obs"]
                 excluded = [p for p, m in zip(rels, matches) if m]
                 pre = root.rstrip("/") + "/"
+                rpre = os.path.realpath(root).rstrip("/") + "/"
+                if not any(k.startswith(pre) for k in keys) and any(k.startswith(rpre) for k in keys):
+                    pre = rpre              # keys are canonical paths
                 analysed = sorted(k[len(pre):] for k in keys if k.startswith(pre))
                 outside = [k for k in keys if not k.startswith(pre)]
                 defs = []
